@@ -610,7 +610,7 @@ Proof. intros H [] Hs; cbn in *; try reflexivity; try discriminate. assumption. 
 Lemma sniff_force_configured T configured l :
   sniff_ok T = true -> In l sniffing_kinds -> sniff_force T configured l = ForceIs configured.
 Proof.
-  unfold sniff_ok. rewrite !andb_true_iff. intros [[H _] _] Hin. rewrite forallb_forall in H. specialize (H l Hin).
+  unfold sniff_ok. rewrite !andb_true_iff. intros [[[H _] _] _] Hin. rewrite forallb_forall in H. specialize (H l Hin).
   destruct l; cbn in Hin; try (exfalso; intuition discriminate); unfold sniff_force in *;
     destruct (listener_internal T _) as [[]|]; destruct (tb_sniff T) as [|s [|]]; try discriminate;
     destruct (ss_guard s); try discriminate; destruct (ss_force s); try discriminate; destruct configured; reflexivity.
@@ -644,3 +644,8 @@ Proof.
   rewrite forallb_forall in Hall. specialize (Hall u Hu). apply andb_true_iff in Hall. destruct Hall as [_ Hp].
   rewrite Hp, Hcalls. destruct l; reflexivity.
 Qed.
+
+(* a peer that sends nothing within the sniff's wait (or closes) is an error of the sniff for either force
+   value: nothing is handed to any reader *)
+Lemma silent_peer_gets_nothing f : Sniff.sniff_stream f [] = (Sniff.ReadErr, []) /\ Sniff.is_err Sniff.ReadErr = true.
+Proof. split; reflexivity. Qed.
